@@ -18,6 +18,9 @@ ASSUMPTIONS = [
     "sha256 is an arbitrary function with 32-byte output in the framing theorems (hashlib answers it at run time)",
     "explicit hypothesis of C17_flip_payload_rejected / C17_flip_length_rejected: no 32-bit checksum collision "
     "between the transmitted payload and the bytes actually taken as payload",
+    "Node.recv_loop (op recv_loop_eof) is exercised on the implementation only: the real loop body in a thread on a "
+    "scripted peer that closes the connection; the required outcome (pings answered, loop ENDS) is computed by the "
+    "harness from the reference framing, not by the Coq model",
     "socket model: recv(n) returns min(n, scheduled chunk, remaining) bytes and b'' at end of stream; blocking, "
     "timeouts and errors of real sockets are not modelled",
     "fragmentation theorems assume positive chunk sizes; termination (C17_recv_msg_terminates) holds for every schedule",
@@ -235,7 +238,10 @@ def impl_addr_rt(count, addrs):
 
 
 def impl_parse_payload(command, payload):
-    r = _p2p().parse_payload(command, payload)
+    return _canon_parsed(command, _p2p().parse_payload(command, payload))
+
+
+def _canon_parsed(command, r):
     if r is None:
         return None
     name = command.decode("ascii")
@@ -243,6 +249,92 @@ def impl_parse_payload(command, payload):
             "feefilter": lambda d: d["feerate"], "sendcmpct": lambda d: (d["announce"], d["version"]),
             "inv": _inv_tuple, "addr": _addr_list}
     return (name, conv[name](r))
+
+
+class LoopSocket(ScriptedSocket):
+    """scripted peer socket for Node.recv_loop: after `bound` recv calls the loop is declared non-terminating; the
+    thread's exit_event is then set and TimeoutError raised so that the real loop can be stopped"""
+
+    def __init__(self, stream, sched, bound, stop):
+        ScriptedSocket.__init__(self, stream, sched, bound)
+        self.sent, self.closed, self.overrun, self.stop = [], False, False, stop
+
+    def recv(self, n, *flags):
+        self.calls += 1
+        if self.calls > self.bound:
+            self.overrun = True
+            self.stop()
+            raise TimeoutError("scripted socket: recv budget exhausted")
+        self.calls -= 1          # ScriptedSocket.recv counts the call itself
+        return ScriptedSocket.recv(self, n, *flags)
+
+    def sendall(self, b, *flags):
+        self.sent.append(bytes(b))
+
+    def close(self):
+        self.closed = True
+
+
+def impl_recv_loop_eof(magic, frames, tail, sched):
+    """the REAL Node.recv_loop in a thread, on a peer that sends the frames (+ a cut-off tail) and closes.
+    outcome: [how the loop ended, frames sent back (hex), queue [(peer, command hex, parsed payload)], bytes read]"""
+    import threading
+    from common import enc
+
+    def run(m):
+        stream = b"".join(spec_ser(magic, c, p) for c, p in frames) + tail
+        node = m.Node()                                      # __init__ opens no socket
+        th = m.PeerThread()                                  # carries exit_event (the body runs in our own thread)
+        sock = LoopSocket(stream, sched, len(stream) + 8, th.exit_event.set)
+        node._peer_sockets[0], node._peer_data[0], node._peer_threads[0] = sock, {}, th
+        end = []
+
+        def body():
+            try:
+                node.recv_loop(0)
+                end.append("exit")
+            except BaseException as e:   # noqa: the peer thread would die with this exception
+                from common import err_kind
+                end.append(err_kind(e))
+
+        t = threading.Thread(target=body, daemon=True)
+        t.start()
+        t.join(10)
+        if t.is_alive():                                     # spinning without even calling recv
+            th.exit_event.set()
+            t.join(5)
+            how = "Timeout"
+        else:
+            how = "Timeout" if sock.overrun else end[0]
+        queue = [[pn, c.hex(), enc(_canon_parsed(c, pl))] for (pn, c, pl) in list(node._msg_queue)]
+        return [how, [x.hex() for x in sock.sent], queue, sock.pos]
+    return _with_magic(magic, run)
+
+
+def expected_recv_loop_eof(magic, frames, tail):
+    """what the property requires: every complete frame is handled (ping -> pong with the same nonce, version ->
+    verack, anything else queued with its parsed payload), then the closed connection ENDS the loop with
+    ConnectionError"""
+    from common import enc
+    sent, queue = [], []
+    for c, p in frames:
+        if c == b"ping":
+            sent.append(spec_ser(magic, b"pong", p).hex())
+        elif c == b"version":
+            sent.append(spec_ser(magic, b"verack", b"").hex())
+        elif c != b"verack":
+            queue.append([0, c.hex(), enc(_spec_parsed(c, p))])
+    return ["ConnE", sent, queue, sum(24 + len(p) for _, p in frames) + len(tail)]
+
+
+def _spec_parsed(c, p):
+    if c == b"inv":
+        return ("inv", _spec_parse_inv(p))
+    if c == b"addr":
+        n = p[0]
+        return ("addr", [(int.from_bytes(p[1 + 30 * i:5 + 30 * i], "little"), p[5 + 30 * i:13 + 30 * i],
+                          p[13 + 30 * i:29 + 30 * i], int.from_bytes(p[29 + 30 * i:31 + 30 * i], "big")) for i in range(n)])
+    return None      # pong, tx, ...: no parser in the library
 
 
 def _pnia(d):
@@ -254,6 +346,7 @@ IMPL = {
     "msg_ser_big": impl_msg_ser_big,
     "recv_msg": impl_recv_msg,
     "recv_msgs": impl_recv_msgs,
+    "recv_loop_eof": impl_recv_loop_eof,
     "version_payload": impl_version_payload,
     "version_rt": impl_version_rt,
     "parse_version_payload": lambda b: _version_tuple(_p2p().parse_version_payload(b)),
@@ -445,6 +538,34 @@ def gen_cases(rng, tier):
     # non-positive scheduled chunk = an empty read in the middle = "closed by peer" for the code
     for sched in ([0], [24, 0], [10, 0, 5], [24, 4, 0], [-1], [5, -3]):
         recv("sched-empty-read", ping, sched, strict=True)
+
+    # --- the node's receive path: Node.recv_loop on a peer that sends k frames and then closes the connection
+    #     (at a message boundary, inside a header, inside a payload); the loop must END, after answering the pings
+    inv_p = b"\x02" + struct.pack("<I", 1) + b"\x11" * 32 + struct.pack("<I", 0x40000002) + b"\x22" * 32
+    addr_p = b"\x01" + struct.pack("<I", 7) + b"\x01" * 8 + BIN_IP + struct.pack(">H", 8333)
+    vers_p = spec_version(70015, 1, 1700000000, 0, ASCII_IP, 8333, 1, ASCII_IP, 18444, 0, UA, 5, 1)
+    menu = [(b"ping", pay8), (b"inv", inv_p), (b"verack", b""), (b"pong", bytes(8)), (b"ping", bytes(range(8, 16))),
+            (b"addr", addr_p), (b"version", vers_p), (b"tx", b"\x01\x02\x03")]
+    cut_src = spec_ser(MAIN, b"inv", inv_p)
+    loops = []
+    for k in range(0, 4):
+        for cut, cname in ((0, "boundary"), (1, "mid-header"), (23, "mid-header"), (24, "mid-payload"), (30, "mid-payload"),
+                           (len(cut_src) - 1, "mid-payload")):
+            reps = (4 if T else 1)
+            for _ in range(reps):
+                fr = [rng.choice(menu) for _ in range(k)] if (k != 1 or rng.random() < 0.5) else [menu[0]]
+                loops.append((cname, fr, cut_src[:cut]))
+    loops.append(("boundary", [menu[0], menu[1]], b""))          # the coordinator's scenario: ping, inv, then EOF
+    loops.append(("mid-payload", [menu[0]], cut_src[:30]))
+    for cname, fr, tail in loops:
+        total = sum(24 + len(p) for _, p in fr) + len(tail)
+        for sched in ([], [1] * total, rand_sched(rng, max(total, 1), rng.randrange(1, 9))) if T else \
+                (rng.choice([[], [1] * total, rand_sched(rng, max(total, 1), rng.randrange(1, 9))]),):
+            for mg in ((MAIN, MAGIC["regtest"]) if T and not sched else (MAIN,)):
+                fr2 = [(c, p) for c, p in fr]
+                tail2 = tail if mg == MAIN else (mg + tail[4:] if len(tail) >= 4 else tail)
+                out.append(case("loop-eof-" + cname, "recv_loop_eof", mg, fr2, tail2, sched,
+                                expect=("ok", expected_recv_loop_eof(mg, fr2, tail2)), timeout=40))
 
     # ------------------------------------------------------------------------------------ codecs
     U32, U64, U16 = 2 ** 32, 2 ** 64, 2 ** 16
@@ -644,6 +765,24 @@ def prop_oracle(c):
     op, a = c["op"], c["args"]
     if op == "recv_msg":
         return _oracle_recv_once(*a)[0]
+    if op == "recv_loop_eof":
+        magic, frames, tail, sched = a
+        frames = [tuple(f) for f in frames]
+        got = impl_recv_loop_eof(magic, frames, tail, sched)
+        want = expected_recv_loop_eof(magic, frames, tail)
+        if got[0] == "Timeout":
+            return "the peer closed the connection but Node.recv_loop keeps calling recv (more than |stream|+8 = %d " \
+                   "calls): the receive path does not terminate" % (want[3] + 8)
+        if got[0] == "exit" and want[0] == "ConnE":
+            pass        # leaving the loop in an orderly way is as good as the ConnectionError
+        elif got[0] != want[0]:
+            return "Node.recv_loop ended with %s, expected %s" % (got[0], want[0])
+        if got[1] != want[1]:
+            return "replies sent before the connection closed: %r, required (pong per ping, verack per version): %r" % (
+                got[1], want[1])
+        if got[2] != want[2]:
+            return "queued messages %r, required %r" % (got[2], want[2])
+        return None
     if op == "recv_msgs":
         k, fuel, magic, stream, sched = a
         # literal statement: k back-to-back receives on one socket = the k messages of the stream, nothing bleeds
@@ -781,6 +920,17 @@ def shrink(c):
             c2 = dict(c)
             c2["args"] = [fuel, magic, stream, []]
             yield c2
+    elif c["op"] == "recv_loop_eof":
+        magic, frames, tail, sched = c["args"]
+        frames = [tuple(f) for f in frames]
+        cands = [(frames[:i] + frames[i + 1:], tail, sched) for i in range(len(frames))]
+        cands += [(frames, tail, [])] if sched else []
+        cands += [(frames, b"", sched)] if tail else []
+        for fr, tl, sc in cands:
+            c2 = dict(c)
+            c2["args"] = [magic, fr, tl, sc]
+            c2["expect"] = ("ok", expected_recv_loop_eof(magic, fr, tl))
+            yield c2
     elif c["op"] == "recv_msgs":
         k, fuel, magic, stream, sched = c["args"]
         for i in range(len(sched)):
@@ -833,3 +983,9 @@ def _lit_nested(v):
     """(list of triples, rest) -> Coq literal"""
     ms, rest = v
     return "([" + "; ".join("(%s, %s, %s)" % (coq_bytes(m), coq_bytes(cc), coq_bytes(p)) for m, cc, p in ms) + "], " + coq_bytes(rest) + ")"
+
+
+# ops whose answer must not depend on the concrete bytes-like type of their arguments (they agree on the pinned tree;
+# tools/bytearray_probe.py); common.py re-runs a sample of their cases with bytearray arguments
+BYTEARRAY_OPS = {'parse_inv_payload', 'parse_getheaders_payload', 'recv_msgs', 'inventory', 'parse_payload', 'parse_feefilter_payload', 'getheaders_rt', 'parse_sendcmpct_payload', 'parse_network_ip_addr', 'parse_ping_payload', 'recv_msg', 'parse_inventory', 'parse_version_payload', 'parse_addr_payload'}
+MEMORYVIEW_OPS = {'parse_feefilter_payload', 'recv_msgs', 'parse_inv_payload', 'parse_addr_payload', 'inventory', 'parse_sendcmpct_payload', 'recv_msg', 'parse_inventory', 'parse_ping_payload', 'getheaders_rt', 'parse_network_ip_addr', 'parse_getheaders_payload'}
